@@ -49,21 +49,43 @@ def b1_twin():
     return b1.vacuity_twin()
 
 
+def c_sweep(**kw):
+    return holes.c_sweep(**kw)
+
+
+def selftest_derivations() -> int:
+    """Second oracle self-test: everything the derivation generator emits is valid for the reference recogniser."""
+    from vtools import derive
+    from vtools.ref.grammar import ref_verdict
+
+    qs = derive.corpus(2)
+    for q in qs:
+        assert ref_verdict(q) == "valid", q
+    assert len(qs) > 300
+    return len(qs)
+
+
+SELFTESTS.append(selftest_derivations)
+
+
 def obligations(tier: str):
     obls = []
+    for ch in range(4):
+        obls.append({"id": "derive.both.chunk%d" % ch, "kind": "concrete", "func": "c_sweep", "params": {"mode": "both", "depth": 2 if tier == "quick" else 3, "chunk": ch, "nchunks": 4}, "timeout": 600})
     for name, _f in b1.obligations_rfc_in_impl():
         obls.append({"id": name, "kind": "smt", "func": "b1_rfc_in_impl", "params": {"name": name}, "timeout": 120})
     obls.append({"id": "b1.twin", "kind": "smt", "func": "b1_twin", "timeout": 60, "expect": "refuted"})
     for i, (pre, suf, k, tr) in enumerate(TERMINALS):
         if tr == "q" or tier == "thorough":
-            obls.append(holes.obligation("term%02d.k%d" % (i, k), pre, suf, k, "accept", 300 if tier == "quick" else 3000))
+            obls.append(holes.obligation("term%02d.k%d" % (i, k), pre, suf, k, "accept", 300 if tier == "quick" else 1500))
     for j, (pre, suf) in enumerate(holes.hole_instances(SEEDS)):
         obls.append(holes.obligation("seed%04d.k1" % j, pre, suf, 1, "accept", 120))
-        if tier == "thorough":
-            obls.append(holes.obligation("seed%04d.k2" % j, pre, suf, 2, "accept", 900))
+        if tier == "thorough" and j % 2 == 1:
+            obls.append(holes.obligation("seed%04d.k2" % j, pre, suf, 2, "accept", 600))
     for j, (pre, suf) in enumerate(holes.hole_instances(SEEDS, replace=(0,))):
         obls.append(holes.obligation("blank%04d.b1" % j, pre, suf, 1, "both", 120, alphabet=BLANKS))
         if tier == "thorough":
             obls.append(holes.obligation("blank%04d.b2" % j, pre, suf, 2, "both", 300, alphabet=BLANKS))
-            obls.append(holes.obligation("blank%04d.b3" % j, pre, suf, 3, "both", 900, alphabet=BLANKS))
+            if j % 3 == 0:
+                obls.append(holes.obligation("blank%04d.b3" % j, pre, suf, 3, "both", 600, alphabet=BLANKS))
     return obls
